@@ -153,6 +153,15 @@ func (w *world) runTask(t sim.Task) {
 		switch op.K {
 		case "call":
 			w.doCall(fmt.Sprintf("%s.%d", t.Name, i), time.Duration(op.D), time.Duration(op.E), op.N)
+		case "callat":
+			// several futures with exactly the same fire instant: the delay is computed in
+			// the very step in which Call reads the clock
+			target := e.Start.Add(time.Duration(op.D))
+			d := time.Until(target)
+			if d < 0 {
+				d = 0
+			}
+			w.doCall(fmt.Sprintf("%s.%d", t.Name, i), d, time.Duration(op.E), 0)
 		case "cancel":
 			f := w.futs[op.S]
 			if f == nil || !f.created || f.f == nil {
@@ -379,13 +388,13 @@ func Generate(r *sim.Rng, prop, tier string, idx int) *sim.Case {
 					var ids []string
 					for _, ot := range c.Tasks {
 						for j, oo := range ot.Ops {
-							if oo.K == "call" {
+							if oo.K == "call" || oo.K == "callat" {
 								ids = append(ids, fmt.Sprintf("%s.%d", ot.Name, j))
 							}
 						}
 					}
 					for j, oo := range task.Ops {
-						if oo.K == "call" {
+						if oo.K == "call" || oo.K == "callat" {
 							ids = append(ids, fmt.Sprintf("%s.%d", task.Name, j))
 						}
 					}
@@ -394,6 +403,23 @@ func Generate(r *sim.Rng, prop, tier string, idx int) *sim.Case {
 					} else {
 						task.Ops = append(task.Ops, sim.Op{K: "cancel", S: ids[r.Intn(len(ids))]})
 					}
+				case 8:
+					// a group of futures sharing one fire instant, some of them cancelled (also twice)
+					target := int64(sim.Pick(r, time.Millisecond, 10*time.Millisecond, 200*time.Millisecond)) + int64(t)*0
+					g := 2 + r.Intn(5)
+					first := len(task.Ops)
+					for k := 0; k < g; k++ {
+						task.Ops = append(task.Ops, sim.Op{K: "callat", D: target})
+					}
+					nc := 1 + r.Intn(2)
+					for k := 0; k < nc; k++ {
+						victim := fmt.Sprintf("%s.%d", task.Name, first+r.Intn(g))
+						task.Ops = append(task.Ops, sim.Op{K: "cancel", S: victim})
+						if r.Chance(1, 2) {
+							task.Ops = append(task.Ops, sim.Op{K: "cancel", S: victim})
+						}
+					}
+					i += g
 				default:
 					task.Ops = append(task.Ops, sim.Op{K: "sleep", D: int64(sim.Pick(r, time.Microsecond, 500*time.Microsecond, time.Millisecond, 5*time.Millisecond, 60*time.Millisecond, 2*time.Second, time.Minute))})
 				}
